@@ -291,7 +291,7 @@ class C14(Engine):
 		'(module, size, op context) imports into a table that held only the other modules')
 	quick_runs = 240
 	thorough_runs = 6000
-	quick_budget_s = 100.0
+	quick_budget_s = 90.0
 	thorough_budget_s = 1500.0
 	components_real = ['SymbolDB.to_json/import_json/_order_keys/unload', 'ReflectionSerializer', 'SymbolDBPersistor', 'RestoreSymbols/StoreSymbols', 'Entrypoints', 'Modules', 'all preprocessors']
 	assumptions = ['encoding shapes are those of the corpus (generated pools + library stubs, nested generics such as dict[str, list[T]] come from the stubs); not a search over programs',
